@@ -299,6 +299,9 @@ def pmap(fn, tasks, nproc=None, init=None, progress=None):
             p.join(timeout=2)
             if p.is_alive():
                 p.kill()
+        # never let interpreter exit wait for queued tasks nobody will read (a failed run leaves some)
+        tq.cancel_join_thread()
+        rq.cancel_join_thread()
         tq.close()
         rq.close()
     return results
